@@ -1,5 +1,6 @@
 import CasbinVerif.Model.EnforcerP
 import CasbinVerif.Properties.C05
+import CasbinVerif.Proofs.Fresh
 /-
   C04 — Decisions never go stale: they depend on current state, not call history.
 
@@ -29,23 +30,41 @@ def Inv (e : Enf) : Prop :=
 
 theorem inv_init (md : ModelDef) (hp : (md.p.map (·.1)).Nodup) (hg : (md.g.map (·.1)).Nodup)
     (hc : ∀ x ∈ md.g, 2 ≤ x.2.1 ∧ x.2.1 ≤ 3 ∧ (x.2.2 = .plain → x.2.1 = 2)) : Inv (Enf.init md) := by
-  sorry
+  refine ⟨C05.init_wf md hp hg hc, C05.init_mirror md hg, ?_, ?_⟩
+  · intro key snap hl
+    simp [Enf.init] at hl
+  · intro gt rm h
+    have h' : (md.g.lookup gt).map (fun v => RM.empty v.2) = some rm := by
+      rw [← lookup_map_snd (fun _ (v : Nat × RMKind) => RM.empty v.2)]; exact h
+    cases hl : md.g.lookup gt with
+    | none => rw [hl] at h'; cases h'
+    | some ck =>
+      rw [hl] at h'
+      cases h'
+      rfl
 
 /-- answers of `HasLink` only depend on kind, depth and link set -/
 theorem hasLink_congr (ra rb : RM) (hk : ra.kind = rb.kind) (hl : ra.maxLevel = rb.maxLevel)
     (h : ∀ l, l ∈ ra.links ↔ l ∈ rb.links) (u r : String) (ds : List String) :
     ra.hasLink u r ds = rb.hasLink u r ds := by
-  sorry
+  exact Fresh.hasLink_congr' ra rb hk hl h u r ds
 
 /-- a management call, ClearPolicy or BuildRoleLinks keeps the invariant -/
 theorem inv_applyM (e : Enf) (op : MOp) (h : Inv e) (hop : e.opWF op = true) :
     ∃ e' res, e.applyM op = some (e', res) ∧ Inv e' := by
-  sorry
+  obtain ⟨hwf, hm, hc, hl⟩ := h
+  obtain ⟨e', res, happ, hwf', hm'⟩ := C05.mirror_step e op hwf hm hop
+  obtain ⟨hc', hl'⟩ := Fresh.applyM_fresh e op ⟨hwf, hm⟩ hc hl e' res happ
+  exact ⟨e', res, happ, hwf', hm', hc', hl'⟩
 
 /-- Enforce (with the model's matcher or a custom one) keeps the invariant -/
 theorem inv_enforce (e : Enf) (ctx : EnforceCtx) (custom : Option String) (rvals : List Val) (h : Inv e) :
     Inv (e.enforceStep ctx custom rvals).1 := by
-  sorry
+  rcases Fresh.enforceStep_state e ctx custom rvals with h0 | ⟨key, h0⟩
+  · rw [h0]; exact h
+  · rw [h0]
+    obtain ⟨hwf, hm, hc, hl⟩ := h
+    exact ⟨hwf, hm, Fresh.cf_assocSet e key hc, hl⟩
 
 /-- the rules currently listed -/
 def listedP (e : Enf) : String → List Rule := fun pt => ((e.p.lookup pt).map (·.policy)).getD []
@@ -57,7 +76,20 @@ theorem enforce_current (e : Enf) (h : Inv e) (hen : e.enabled = true) (ctx : En
     (hwf : C01.emptyPolicyOk e.md (listedP e) (specLink e.md (listedG e) 10) e.fn e.evalTab ctx rvals = true)
     (hs : specEnforce e.md (listedP e) (listedG e) e.fn e.evalTab ctx rvals = some d) :
     ((e.enforceStep ctx none rvals).2).map (·.1) = some d := by
-  sorry
+  obtain ⟨hst, hm, hc, hl⟩ := h
+  have hs' := hs
+  unfold specEnforce at hs'
+  simp only [Option.bind_eq_bind, Option.bind_eq_some_iff] at hs'
+  obtain ⟨m, hmm, -⟩ := hs'
+  obtain ⟨snap, hsnap, hres⟩ := Fresh.enforceStep_result e hen ctx rvals m hmm
+  have heq : RMEquiv snap e.rm := by
+    rcases hsnap with rfl | ⟨key, hk⟩
+    · exact Fresh.RMEq.refl _
+    · exact hc key snap hk
+  have hlinks : Fresh.linksOf snap = specLink e.md (listedG e) 10 :=
+    funext fun gt => funext fun args => Fresh.linksOf_eq_specLink e ⟨hst, hm⟩ hl snap heq gt args
+  rw [hres, C01.withMatcher_own _ _ _ _ _ _ _ m hmm, hlinks]
+  exact C01.enforce_eq_perm e.md (listedP e) (listedG e) _ e.fn e.evalTab ctx rvals d (fun _ _ => rfl) hwf hs
 
 /-- a step of an interleaved history: a management call or an Enforce -/
 inductive Step
@@ -87,7 +119,23 @@ def stepsWF (e : Enf) : List Step → Bool
 /-- after any interleaving of Enforce calls with management calls the invariant holds … -/
 theorem inv_history (e : Enf) (ss : List Step) (h : Inv e) (hw : stepsWF e ss = true) :
     ∃ e', runSteps e ss = some e' ∧ Inv e' := by
-  sorry
+  induction ss generalizing e with
+  | nil => exact ⟨e, rfl, h⟩
+  | cons s ss ih =>
+    simp only [stepsWF, Bool.and_eq_true] at hw
+    obtain ⟨hw1, hw2⟩ := hw
+    cases s with
+    | mgmt op =>
+      obtain ⟨e1, res, h1, hi1⟩ := inv_applyM e op h hw1
+      have ha : applyStep e (.mgmt op) = some e1 := by simp only [applyStep, h1, Option.map_some]
+      rw [ha] at hw2
+      obtain ⟨e2, h2, hi2⟩ := ih e1 hi1 hw2
+      exact ⟨e2, by simp only [runSteps, ha, h2], hi2⟩
+    | enforce ctx custom rvals =>
+      have ha : applyStep e (.enforce ctx custom rvals) = some (e.enforceStep ctx custom rvals).1 := rfl
+      rw [ha] at hw2
+      obtain ⟨e2, h2, hi2⟩ := ih _ (inv_enforce e ctx custom rvals h) hw2
+      exact ⟨e2, by simp only [runSteps, ha, h2], hi2⟩
 
 /-- … so two enforcers that reached the same listed rules through different histories (for instance
     the live one and a freshly constructed one that was only given those rules) decide alike -/
@@ -100,17 +148,31 @@ theorem same_rules_same_decision (e₁ e₂ : Enf) (h₁ : Inv e₁) (h₂ : Inv
     (hs : specEnforce e₁.md (listedP e₁) (listedG e₁) e₁.fn e₁.evalTab ctx rvals = some d) :
     ((e₁.enforceStep ctx none rvals).2).map (·.1) = some d ∧
     ((e₂.enforceStep ctx none rvals).2).map (·.1) = some d := by
-  sorry
+  refine ⟨enforce_current e₁ h₁ hen₁ ctx rvals d hwf hs, ?_⟩
+  rw [hmd, hp, hg, hfn, het] at hwf hs
+  exact enforce_current e₂ h₂ hen₂ ctx rvals d hwf hs
 
 /-- without a registered matching function the pattern-manager wrapper is the plain enforcer -/
 theorem noPattern_applyM (ep : EnfP) (op : MOp) (h : ep.prm = []) :
     (ep.applyM op).map (fun r => (r.1.base, r.1.prm, r.2)) = (ep.base.applyM op).map (fun r => (r.1, [], r.2)) := by
-  sorry
+  unfold EnfP.applyM
+  cases hb : ep.base.applyM op with
+  | none => rfl
+  | some r =>
+    obtain ⟨b', res⟩ := r
+    have hd := Fresh.delta_nil ep.base op { ep with base := b' } h
+    simp only [Option.map_some]
+    split
+    · simp only [Option.map_some, Fresh.syncCache_base, Fresh.syncCache_prm, hd.1, hd.2]
+    · simp only [Option.map_some, Fresh.syncCache_base, Fresh.syncCache_prm, h]
 
 theorem noPattern_enforce (ep : EnfP) (ctx : EnforceCtx) (custom : Option String) (rvals : List Val) (h : ep.prm = []) :
     (ep.enforceStep ctx custom rvals).2 = (ep.base.enforceStep ctx custom rvals).2 ∧
     (ep.enforceStep ctx custom rvals).1.base = (ep.base.enforceStep ctx custom rvals).1 ∧
     (ep.enforceStep ctx custom rvals).1.prm = [] := by
-  sorry
+  unfold EnfP.enforceStep
+  rw [h]
+  simp only [List.isEmpty_nil, if_true]
+  exact ⟨trivial, trivial, trivial⟩
 
 end Casbin.C04
